@@ -514,7 +514,13 @@ let apply (toks : string list) (buf : Buffer.t) =
                let vals =
                  if List.exists (fun t -> String.length t > 0 && t.[0] = '!') cells
                  then List.init 1000 (fun _ -> N0)
-                 else List.map n_of_string cells in
+                 else
+                   (* every cell travels as a u64 token; the harness types keep what fits their payload *)
+                   let cs = List.concat (List.mapi (fun bi b ->
+                       let b = int_of_string (string_of_n b) in
+                       List.filter_map (fun j -> if (b lsr j) land 1 = 1 then Some (8 * bi + j) else None) [0;1;2;3;4;5;6;7]) bytes) in
+                   let raw = List.map n_of_string cells in
+                   if List.length cs = List.length raw then List.map2 norm_comp cs raw else raw in
                pos := !pos + 3 + k;
                ((nat_of_int idx, gen), vals)) in
            archs := { sa_bytes = bytes; sa_len = nat_of_int (int_of_string declared); sa_rows = rows } :: !archs
